@@ -9,6 +9,8 @@
                          loop callbacks and timer expiries to a depth (schedules, not only datagram sequences)
   * closed_two_handlers_with_maintenance_tasks: two handlers and their two maintenance tasks on one virtual loop, back to back
                          (checks/c17_sched.py): all orders of deliveries, loop callbacks, timer expiries, one injection
+  * tla_model_conformance: a TLA+ model of the discipline (models/Hstrp.tla) checked by TLC; every model transition replayed against
+                         two real handlers (checks/c17_tla.py): the model is bound to the code transition by transition
   * malformed_depth1   : every prefix truncation and every single-bit corruption of every alphabet datagram delivered
                          in each of 4 reachable states: never raises, never answers garbage with a payload
 """
@@ -745,6 +747,24 @@ def run(only=None):
         s.extra["runs_to_quiescence"] = True
         s.done()
         rep.bounds["closed_two_handlers"] = {"depth_completed": res.depth_completed, "states": res.states, "fixpoint": res.exhausted}
+    if not only or "tla_model_conformance" in only:
+        from checks import c17_tla
+        b = 3 if thorough else 2
+        s = rep.sub("tla_model_conformance",
+                    rule=f"/verif/models/Hstrp.tla (the acknowledgement discipline for two handlers back to back, <= {b} injected messages of 8 classes, 3 initial flag pairs): TLC enumerates "
+                         "every reachable model state (invariants: the exchange dies out, type bounds) and prints every transition; each transition is replayed on two fresh real "
+                         "handlers from the breadth-first representative of its source state and the abstraction of the reached implementation state must be the model's successor")
+        st = c17_tla.conformance(s, b)
+        if isinstance(st, str):
+            rep.log("tla_model_conformance skipped: " + st)
+            s.extra["skipped"] = st
+            s.exhaustive = False
+        else:
+            s.extra["tlc"] = st
+            s.states = (s.states or 0) + st["model_states"]
+            s.transitions = (s.transitions or 0) + st["model_transitions"]
+            s.traces = (s.traces or 0) + st["transitions_replayed_against_the_implementation"]
+        s.done()
     if not only or "malformed_depth1" in only:
         s = rep.sub("malformed_depth1", rule="every prefix truncation and every single-bit flip (thorough: and every two-bit flip) of every well-formed alphabet datagram, and every (type octet x payload class x option chain) "
                                              "composition of the harness's writer (7 x 6 x 3 placements of every option type 1..7 with lengths 0/1/2/4 and fills 00/01/02/FF), delivered in 4 reachable states; "
